@@ -29,25 +29,38 @@ def programs(case):
     args = case.get("args", [])
     kwargs = case.get("kwargs", {})
     cal = case["callable"]
+    t1 = [["bcall", "B", "F", args, kwargs]]
+    t2 = [["xsubmit", "B", "F", cal, args, kwargs]]
+    final = [["state", "F"]]
+    if case.get("also_call") is not None:
+        # an INTERMEDIATE bound callable (after `also_call` of the with_* calls) is kept and called as well, after the full chain was
+        # built from it and used: it must still be the shorter chain
+        j = min(case["also_call"], len(case["after"]))
+        t1 += [["result", "F", 30], ["bcall", "B@%d" % j, "G", args, kwargs]]
+        t2 += [["result", "F", 30], ["xsubmit", "B@%d" % j, "G", cal, args, kwargs]]
+        final = [["state", "F"], ["state", "G"]]
     p1 = {"setup": [["bindchain", "B", before, cal, case["after"], case.get("flat", False)]],
-          "threads": [[["bcall", "B", "F", args, kwargs]]], "settle": 6, "final": [["state", "F"]]}
+          "threads": [t1], "settle": 6, "final": final}
     p2 = {"setup": [["execchain", "B", before, case["after"], case.get("flat", False)]],
-          "threads": [[["xsubmit", "B", "F", cal, args, kwargs]]], "settle": 6, "final": [["state", "F"]]}
+          "threads": [t2], "settle": 6, "final": final}
     return p1, p2
 
 
 def observe(prog):
     s, w = progs.run_case({"prog": prog, "tape": [], "clock": "exact", "max_vtime": 200})
     h = world.History(s, w)
-    st = [o["result"] for o in h.oplist("state")]
+    sts = [o for o in h.oplist("state")]
+    st = [o["result"] for o in sts if o["op"][1] == "F"]
     st = st[-1][1] if st and st[-1][0] == "ok" else st
+    st2 = [o["result"] for o in sts if o["op"][1] == "G"]
+    st2 = st2[-1][1] if st2 and st2[-1][0] == "ok" else (st2 or None)
     counts = {}
     for ev in s.events:
         if ev[3] in ("call", "poll_call"):
             counts[ev[4]["fn"]] = counts.get(ev[4]["fn"], 0) + 1
     threads = [ev[4]["name"] for ev in s.events if ev[3] == "thread_start"]
     setup_err = [o["result"] for o in h.oplist() if o["op"][0] in ("bindchain", "execchain", "bcall", "xsubmit") and o["result"][0] != "ok"]
-    return {"end": s.end_reason, "state": st, "counts": counts, "threads": threads, "errors": setup_err}
+    return {"end": s.end_reason, "state": st, "state2": st2, "counts": counts, "threads": threads, "errors": setup_err}
 
 
 def expected_threads(case):
@@ -97,6 +110,8 @@ def evaluate(case):
     if norm_state(o1["state"]) != norm_state(o2["state"]):
         nested = isinstance(o1["state"], dict) and o1["state"].get("vtype") == "Future"
         bad("outcome-differs" + (":nested-future" if nested else ""), bind=o1["state"], submit=o2["state"])
+    if norm_state(o1["state2"]) != norm_state(o2["state2"]):
+        bad("intermediate-bound-callable-differs", bind=o1["state2"], submit=o2["state2"], also_call=case.get("also_call"))
     if o1["counts"] != o2["counts"]:
         diff = sorted(k for k in set(o1["counts"]) | set(o2["counts"]) if o1["counts"].get(k) != o2["counts"].get(k))
         which = "fn" if any(k == "B.fn" for k in diff) else "layer-fn"
@@ -162,7 +177,8 @@ def case_strategy():
         return {"base": base, "base_name": draw(st.sampled_from([None, "bee", "b2"])), "before": layers[:cut], "after": layers[cut:], "flat": flat,
                 "callable": {"kind": kind, "script": script},
                 "args": draw(st.lists(st.one_of(st.integers(-3, 3), st.text(max_size=3)), max_size=3)),
-                "kwargs": draw(st.dictionaries(st.sampled_from(["a", "b", "kw"]), st.integers(0, 5), max_size=2))}
+                "kwargs": draw(st.dictionaries(st.sampled_from(["a", "b", "kw"]), st.integers(0, 5), max_size=2)),
+                "also_call": draw(st.sampled_from([None, None, 0, 0, 1, 2]))}
 
     return cases()
 
